@@ -47,6 +47,7 @@ structure St where
   sites : List (Nat × Nat) := []       -- definition site ↦ cell id
   heap : Heap := {}
   clos : List RClos := []              -- closure table; `Val.clos _ _ id` has id = index + 1
+  out : List String := []              -- lines written by `puts` (newest first)
 
 inductive Err where
   | rt (line : Nat)     -- runtime error raised by the construct on `line`
@@ -201,7 +202,11 @@ def evalE : Nat → Env → Expr → M (R Val)
     | .bool _ b => pure (.val (.bool b) env)
     | .ident _ name _ =>
       match lookupEnv name env with
-      | some (.g c) => do return .val (← getCell c) env
+      | some (.g c) => do
+        let v ← getCell c
+        -- a binding whose `let` failed at run time (REPL histories): the documents do not say what it holds
+        if v matches .other "poison" then throw .unc
+        return .val v env
       | some (.l v) => pure (.val v env)
       | some (.cap v) => pure (.val v env)
       | none =>
@@ -433,6 +438,16 @@ def callValue : Nat → Nat → Val → List Val → M Val
           | some (.letS ..) | some (.fnS ..) | some (.ret ..) | none => pure .null
           | _ => throw .unc     -- a body ending in a loop/block/break: not specified
         | _ => throw .unc
+    | .builtin "puts" => do
+      -- `puts` writes its arguments (strings verbatim, other values as displayed) and a newline
+      let rargs ← vargs.mapM reifyM
+      let parts := rargs.map fun v => match v with
+        | .str t => some t
+        | v => Spec.Builtins.display? v
+      if parts.any Option.isNone then throw .unc
+      let text := String.join (parts.filterMap id)
+      modify fun s => { s with out := text :: s.out }
+      pure .null
     | .builtin name => do
       let rargs ← vargs.mapM reifyM
       match Spec.Builtins.call name rargs with
